@@ -81,14 +81,29 @@ theorem async_escape_only_if (cfg : Cfg) (sw : Manager.Switch) (delay : Option I
 no replication reset, no re-pointing) and the emergency marker is written -/
 theorem splitbrain_aborts (cfg : Cfg) (i : In) (ps : List Pos)
     (hpos : i.positions = some ps) (hsb : findMostRecent ps = .splitBrain)
-    (hreach : Step.positions true ∈ performSwitchover cfg i) :
+    (hreach : Step.positions true ∈ performSwitchover cfg i)
+    (hwf : ∀ p ∈ ps, WF p.gtid) :
     (performSwitchover cfg i).getLast? = some .writeEmerge ∧
     ∀ s ∈ performSwitchover cfg i, ¬ IsPromotion s ∧ (∀ h ok, s ≠ .resetSlaveAll h ok) ∧ (∀ h t ok, s ≠ .changeMaster h t ok) := by
-  -- FALSE as stated for ILL-FORMED positions: a single collected position whose host is `sw.from_` and whose set has
-  -- an empty interval is "split brain" for `findMostRecent` (it does not contain itself), but the procedure stops at
-  -- "no suitable nodes to switch from".  Corrected statement (extra hypothesis `∀ p ∈ ps, WF p.gtid`), proved:
-  -- `SwitchoverLemmas.splitbrain_aborts`; the second conjunct holds unconditionally (`SwitchoverLemmas.splitbrain_no_promo`).
-  sorry
+  -- CORRECTED after a counterexample: without `hwf` (sets as MySQL prints them: no empty interval) the first conjunct is
+  -- false — one collected position with an empty interval does not contain itself, `findMostRecent` says split brain but
+  -- the procedure stops earlier at "no suitable nodes to switch from" (`SwitchoverLemmas.splitbrain_aborts_counterexample`,
+  -- kernel-checked).  The second conjunct needs neither `hwf` nor `hreach` (`splitbrain_never_promotes` below).
+  obtain ⟨h1, h2⟩ := SwitchoverLemmas.splitbrain_aborts cfg i ps hpos hsb hreach hwf
+  refine ⟨h1, fun s hs => ?_⟩
+  obtain ⟨a, b, c⟩ := h2 s hs
+  refine ⟨?_, b, c⟩
+  intro hp
+  cases s <;> simp [IsPromotion] at hp
+  all_goals first | exact a _ _ rfl | exact b _ _ rfl | skip
+
+/-- … whatever the sets look like: with positions that have no maximum nothing is promoted -/
+theorem splitbrain_never_promotes (cfg : Cfg) (i : In) (ps : List Pos)
+    (hpos : i.positions = some ps) (hsb : findMostRecent ps = .splitBrain) :
+    ∀ s ∈ performSwitchover cfg i, (∀ h ok, s ≠ .setWritable h ok) ∧ (∀ h ok, s ≠ .resetSlaveAll h ok) ∧ (∀ h t ok, s ≠ .changeMaster h t ok) := by
+  intro s hs
+  have h := SwitchoverLemmas.splitbrain_no_promo cfg i ps hpos hsb s hs
+  refine ⟨?_, ?_, ?_⟩ <;> intros <;> intro he <;> subst he <;> simp [SwitchoverLemmas.promo] at h
 
 /-- the emergency marker is written only on split brain -/
 theorem emerge_only_on_splitbrain (cfg : Cfg) (i : In) (h : Step.writeEmerge ∈ performSwitchover cfg i) :
